@@ -1,0 +1,19 @@
+//go:build verif
+
+package validation
+
+import (
+	"reflect"
+	"runtime"
+)
+
+// Thin exported wrapper for the determinism check (property C02). Compiled only with the `verif` build tag.
+
+// VerifChecks returns the structural validation rule table as pattern → checker function name.
+func VerifChecks() map[string]string {
+	out := map[string]string{}
+	for k, v := range checks {
+		out[string(k)] = runtime.FuncForPC(reflect.ValueOf(v).Pointer()).Name()
+	}
+	return out
+}
